@@ -28,8 +28,16 @@ variable {α : Type} [DecidableEq α]
 /-- side condition on generated data: the generic samplers have the shape the theorems are about -/
 theorem gen_sampler_cfg : samplerCfg = SamplerCfg.reference := by decide
 
-/-- side condition on generated data: the point-set sampler does test membership in the other region -/
-theorem gen_ball_filter : ballFilter ≠ BallFilter.none := by decide
+/-- side condition on generated data: the point-set sampler filters its candidates with the other region's
+    three-coordinate membership test `_trueContainsPoint` (not the z-blind `containsPoint`, not nothing) -/
+theorem gen_ball_filter : ballFilter = BallFilter.trueContainsPoint := by decide
+
+/-- side condition on generated data: without a `circumcircle` every point of the set is a candidate -/
+theorem gen_ball_fallback : ballFallback = BallFallback.allPoints := by decide
+
+/-- side condition on generated data: the polygon sampler discards candidates outside the polygon -/
+theorem gen_polygon_filter : polygonOuterFilter = true := by decide
+
 
 /-! ## point sets and grids -/
 
@@ -86,13 +94,19 @@ theorem union_lowdim_ignored (d : Nat) (μ : Rat) (hμ : 0 < μ) (R : List α) (
   rw [gen_sampler_cfg]
   refine ⟨_, unionSampler_mixed d μ R Rs smalls hsm, ?_⟩
   apply union_mass_core d μ hμ (R :: Rs) hnd
-  unfold containCount
-  rw [List.filter_append, List.length_append]
-  have h0 : (smalls.filter fun o => o.contains x) = [] := by
-    apply List.filter_eq_nil_iff.mpr
-    intro o ho; simp [hx o ho]
-  rw [h0, List.length_nil, Nat.add_zero]
-  exact containCount_prim d μ (R :: Rs) x
+  · intro i o h
+    have hi : i < ((R :: Rs).map (primOperand d μ)).length := by
+      by_contra hge
+      rw [List.getElem?_eq_none (by omega)] at h
+      exact absurd h (by simp)
+    rw [List.getElem?_append_left hi]; exact h
+  · unfold containCount
+    rw [List.filter_append, List.length_append]
+    have h0 : (smalls.filter fun o => o.contains x) = [] := by
+      apply List.filter_eq_nil_iff.mpr
+      intro o ho; simp [hx o ho]
+    rw [h0, List.length_nil, Nat.add_zero]
+    exact containCount_prim d μ (R :: Rs) x
 
 example : ∃ p, unionSampler samplerCfg ([[1, 2, 3], [3, 4]].map (primOperand 2 1) ++ [primOperand 0 1 [9, 8]]) = some p ∧
     mass p 3 = 1 / 5 ∧ mass p 9 = 0 :=
@@ -113,6 +127,89 @@ theorem union_without_rejection_not_uniform :
 theorem union_unit_weights_not_uniform :
     ∃ p, unionSampler { SamplerCfg.reference with unionWeight := .one }
         ([[1, 2, 3], [4]].map (primOperand 0 1)) = some p ∧ mass p 1 = 1 / 6 ∧ mass p 4 = 1 / 2 :=
+  ⟨_, rfl, by decide +kernel⟩
+
+/-- **Union, full support whatever the membership tests answer.**  The drawn region is counted by
+    construction (`1 + sum(... if reg is not target_reg)`), so the containment count is never zero: for *any*
+    operands (exact membership tests or not — e.g. a polyline that does not recognise its own interpolated
+    samples), every point that a top-dimensional operand of positive size can produce is returned by the union
+    with positive probability. -/
+theorem union_support_general (ops : List (Operand α)) (p : SubPMF α)
+    (hp : unionSampler samplerCfg ops = some p)
+    (hw : ∀ o ∈ ops, 0 ≤ opSize o)
+    (hs : ∀ o ∈ ops, ∀ e ∈ o.sampler.getD [], 0 ≤ e.2)
+    (oi : Operand α × Nat) (hoi : oi ∈ unionLargeIdx samplerCfg ops) (hsz : 0 < opSize oi.1)
+    (x : α) (hx : 0 < mass (oi.1.sampler.getD []) x) : 0 < mass p x := by
+  rw [gen_sampler_cfg] at hp hoi
+  unfold unionSampler at hp
+  split at hp; · exact absurd hp (by simp)
+  simp only at hp
+  split at hp; · exact absurd hp (by simp)
+  split at hp; · exact absurd hp (by simp)
+  simp only [Option.some.injEq, SamplerCfg.reference] at hp
+  subst hp
+  have hmemops : ∀ oj ∈ unionLargeIdx SamplerCfg.reference ops, oj.1 ∈ ops := by
+    intro oj hoj
+    unfold unionLargeIdx at hoj
+    split at hoj
+    · simp at hoj
+    · exact List.mem_of_getElem? (List.mem_zipIdx_iff_getElem?.mp (List.mem_of_mem_filter hoj))
+  rw [mass_weightedPick]
+  set L := unionLargeIdx SamplerCfg.reference ops with hL
+  set W := (L.map fun oj => opSize oj.1).sum with hW
+  have hWpos : 0 < W := by
+    have := le_sum_of_mem L (fun oj => opSize oj.1) (fun oj hoj => hw _ (hmemops oj hoj)) oi hoi
+    exact lt_of_lt_of_le hsz this
+  have hterm0 : ∀ oj ∈ L, 0 ≤ opSize oj.1 / W *
+      mass ((oj.1.sampler.getD []).map fun e =>
+        (e.1, e.2 * acceptProb .invCount
+          (unionCountAt SamplerCfg.reference ops.zipIdx (fun i j => i == j) oj.2 e.1))) x := by
+    intro oj hoj
+    rw [mass_map_mul _ (fun y => acceptProb .invCount
+      (unionCountAt SamplerCfg.reference ops.zipIdx (fun i j => i == j) oj.2 y)) x]
+    apply mul_nonneg (div_nonneg (hw _ (hmemops oj hoj)) hWpos.le)
+    exact mul_nonneg (mass_nonneg (hs _ (hmemops oj hoj)) x) (acceptProb_invCount_nonneg _)
+  have hge := le_sum_of_mem L _ hterm0 oi hoi
+  refine lt_of_lt_of_le ?_ hge
+  rw [mass_map_mul _ (fun y => acceptProb .invCount
+    (unionCountAt SamplerCfg.reference ops.zipIdx (fun i j => i == j) oi.2 y)) x]
+  exact mul_pos (div_pos hsz hWpos)
+    (mul_pos hx (acceptProb_invCount_pos _ (unionCountAt_reference_pos _ _ _ _)))
+
+/-- a region of two atoms whose membership test rejects everything (its own samples included), in a union with
+    an ordinary point set: with the repaired count every atom is still produced … -/
+example : ∃ p, unionSampler samplerCfg
+      [{ sampler := some (uniformList [1, 2]), dim := some 0, size := some 2, contains := fun _ => false },
+       primOperand 0 1 [3]] = some p ∧ mass p 1 = 1 / 3 ∧ mass p 3 = 1 / 3 :=
+  ⟨_, rfl, by decide +kernel⟩
+
+/-- … whereas the shape before the repair (`sum(...)` over all regions, the drawn one asked about its own
+    sample) divides by zero on every draw from that region: none of its atoms is ever returned. -/
+theorem union_self_test_loses_support :
+    ∃ p, unionSampler { SamplerCfg.reference with unionSelf := .byTest }
+      [{ sampler := some (uniformList [1, 2]), dim := some 0, size := some 2, contains := fun _ => false },
+       primOperand 0 1 [3]] = some p ∧ mass p 1 = 0 ∧ mass p 2 = 0 ∧ mass p 3 = 1 / 3 :=
+  ⟨_, rfl, by decide +kernel⟩
+
+/-! ## grids in unions -/
+
+/-- `GridRegion._trueContainsPoint` (regenerated: the point-set test) makes a grid an ordinary point set for
+    the generic samplers, so `union_uniform` / `intersection_prim_uniform` / `difference_uniform` apply to it. -/
+theorem grid_operand_exact (pts : List α) (cellOf : α → Option α) :
+    gridOperand membership.grid pts cellOf = primOperand 0 1 pts := by
+  rw [gen_membership]; rfl
+
+/-- with the cell-based test inherited from `containsPoint` (before the repair) a point of *another* operand
+    that lies over a free cell is counted twice and comes out with half the probability of its neighbours -/
+theorem grid_cell_membership_not_uniform :
+    ∃ p, unionSampler SamplerCfg.reference
+      [primOperand 0 1 [1, 2, 3], gridOperand .cell [10] (fun x => if x = 1 then some 10 else none)] = some p ∧
+      mass p 1 = 1 / 8 ∧ mass p 2 = 1 / 4 ∧ mass p 10 = 1 / 4 :=
+  ⟨_, rfl, by decide +kernel⟩
+
+example : ∃ p, unionSampler samplerCfg
+      [primOperand 0 1 [1, 2, 3], gridOperand membership.grid [10] (fun x => if x = 1 then some 10 else none)] = some p ∧
+      mass p 1 = 1 / 4 ∧ mass p 2 = 1 / 4 ∧ mass p 10 = 1 / 4 :=
   ⟨_, rfl, by decide +kernel⟩
 
 /-! ## intersection -/
@@ -248,6 +345,15 @@ example : ∃ p, interSampler samplerCfg ([[1, 2, 3, 4], [2, 4, 6], [4, 2, 9]].m
     mass p 2 = mass p 4 ∧ 0 < mass p 2 ∧ mass p 1 = 0 ∧ mass p 6 = 0 :=
   ⟨_, rfl, by decide +kernel⟩
 
+/-- why an operand must recognise its own samples (`PolylineRegion.containsPoint` before its repair did not):
+    the first-fit test ranges over *all* operands, the sampled one included, so such an intersection rejects
+    every draw although the composed set `{1, 2}` is not empty. -/
+theorem intersection_needs_self_recognition :
+    ∃ p, interSampler samplerCfg
+      [{ sampler := some (uniformList [1, 2]), dim := some 1, size := some 2, contains := fun _ => false },
+       primOperand 3 1 [1, 2, 3]] = some p ∧ mass p 1 = 0 ∧ mass p 2 = 0 ∧ total p = 0 :=
+  ⟨_, rfl, by decide +kernel⟩
+
 /-! ## difference -/
 
 /-- **Difference**: the sample of `A` is returned exactly when `B` does not contain it; hence if `A`'s
@@ -321,6 +427,67 @@ example : mass (ballSampler [1, 2, 3, 4, 5] (fun n => n ≤ 4) (fun n => n % 2 =
 theorem small_ball_loses_points :
     mass (ballSampler [1, 2, 3, 4, 5] (fun n => n ≤ 3) (fun n => n % 2 = 0)) 4 = 0 ∧
     mass (uniformList ([1, 2, 3, 4, 5].filter fun n => n % 2 = 0)) 4 = 1 / 2 := by decide +kernel
+
+/-- the same sampler with the `hasattr(o, "circumcircle")` guard (regenerated): a region without a candidate
+    ball (polygon, polyline, path, voxel grid …) makes every point a candidate, so the sampler is uniform on
+    `{p ∈ P | o ∋ p}` unconditionally; with a ball, as above. -/
+theorem pointset_inter_guarded_uniform (P : List α) (hP : P.Nodup) (ball : Option (α → Bool)) (contains : α → Bool)
+    (hcover : ∀ inBall, ball = some inBall → ∀ p ∈ P, contains p = true → inBall p = true) (x : α) :
+    mass (ballSamplerOpt ballFallback P ball contains) x =
+      if x ∈ P ∧ contains x = true then 1 / ((P.filter contains).length : Rat) else 0 := by
+  rw [gen_ball_fallback]
+  cases ball with
+  | none => exact pointset_inter_uniform P hP (fun _ => true) contains (fun _ _ _ => rfl) x
+  | some inBall => exact pointset_inter_uniform P hP inBall contains (hcover inBall rfl) x
+
+example : mass (ballSamplerOpt ballFallback [1, 2, 3, 4, 5] none (fun n => n % 2 = 0)) 4 = 1 / 2 := by
+  decide +kernel
+
+/-- **membership in all three coordinates** for `PointSetRegion ∩ other`: the region program evaluated with the
+    regenerated filter never returns a point that the other region's `_trueContainsPoint` rejects -/
+theorem pointset_inter_true_membership (env : List (Operand α)) (i j : Nat) (ib : Option (List α)) (x : α)
+    (hx : (env.getD j undefinedOperand).contains x = false) :
+    ∀ p, (evalInstr samplerCfg ballFilter ballFallback env (.ball i ib j)).sampler = some p → mass p x = 0 := by
+  intro p hp
+  rw [gen_ball_filter, gen_ball_fallback] at hp
+  have key : ∀ (fb : BallFallback) (P : List α) (ball : Option (α → Bool)) (c : α → Bool), c x = false →
+      mass (ballSamplerOpt fb P ball c) x = 0 := by
+    intro fb P ball c hc
+    have hcount : ∀ f : α → Bool, ((P.filter f).filter c).count x = 0 := by
+      intro f
+      apply List.count_eq_zero_of_not_mem
+      intro hm
+      have := (List.mem_filter.mp hm).2
+      rw [hc] at this; exact absurd this (by simp)
+    cases ball with
+    | none =>
+      cases fb with
+      | allPoints =>
+        show mass (uniformList ((P.filter fun _ => true).filter c)) x = 0
+        rw [mass_uniformList, hcount]; simp
+      | attributeError => exact mass_nil x
+    | some f =>
+      cases fb <;>
+      · show mass (uniformList ((P.filter f).filter c)) x = 0
+        rw [mass_uniformList, hcount]; simp
+  simp only [evalInstr, composed, Option.some.injEq] at hp
+  subst hp
+  exact key _ _ _ _ hx
+
+/-- with the z-blind `containsPoint` as filter (before the repair) a point at another height than a polygonal
+    operand is returned: atom 7 is in the footprint (`memberPt`) but not in the region (`member`) -/
+theorem pointset_inter_containsPoint_leaks :
+    ∃ p, (evalInstr SamplerCfg.reference .containsPoint .allPoints
+        [evalInstr SamplerCfg.reference .containsPoint .allPoints [] (.points [7, 8] [7, 8]),
+         evalInstr SamplerCfg.reference .containsPoint .allPoints [] (.opaque (some 2) (some 4) [8] [7, 8] [7, 8])]
+        (.ball 0 none 1)).sampler = some p ∧ mass p 7 = 1 / 2 :=
+  ⟨_, rfl, by decide +kernel⟩
+
+example : ∃ p, (evalInstr samplerCfg ballFilter ballFallback
+        [evalInstr samplerCfg ballFilter ballFallback [] (.points [7, 8] [7, 8]),
+         evalInstr samplerCfg ballFilter ballFallback [] (.opaque (some 2) (some 4) [8] [7, 8] [7, 8])]
+        (.ball 0 none 1)).sampler = some p ∧ mass p 7 = 0 ∧ mass p 8 = 1 :=
+  ⟨_, rfl, by decide +kernel⟩
 
 /-! ## polylines / paths: segment chosen in proportion to its length -/
 
@@ -425,6 +592,45 @@ theorem polygon_uniform (μ : Rat) (hμ : μ ≠ 0) (tris : List (List α))
   segments_uniform μ hμ tris hnd hdisj x
 
 example : mass (rejectionLoop [1, 2, 3, 4] (fun n => n ≤ 3) 2) 1 = (1 - (1 / 4) ^ 2) * (1 / 3) := by
+  decide +kernel
+
+/-- a retry loop (`while True:` around a pass that may fail) only rescales the masses of one pass:
+    after `n` rounds each outcome has its one-pass mass times `(1 - (1 - T)^n) / T`, `T` = success probability
+    of a pass — so equal masses stay equal, zero stays zero, and the factor tends to `1 / T`. -/
+theorem retry_loop_mass (pass : SubPMF α) (n : Nat) (x : α) :
+    total pass * mass (retryLoop pass n) x = (1 - (1 - total pass) ^ n) * mass pass x := by
+  rw [mass_retryLoop, ← mul_assoc, geom_closed]
+
+/-- **Polygon with an overshooting triangulation** (`mapbox_earcut` on holes that touch): the triangles are
+    non-overlapping but may cover atoms outside the polygon.  With the regenerated guard
+    (`if shapely.intersects_xy(self.polygons, x, y): return`) every atom of the polygon covered by a triangle has
+    the same probability and no atom outside the polygon is ever returned, after any number of rounds. -/
+theorem polygon_filtered_uniform (μ : Rat) (hμ : μ ≠ 0) (tris : List (List α))
+    (hnd : ∀ t ∈ tris, t.Nodup) (hdisj : tris.Pairwise fun s t => ∀ a, a ∈ s → a ∉ t)
+    (inPoly : α → Bool) (n : Nat) :
+    (∀ x y, inPoly x = true → inPoly y = true → (∃ t ∈ tris, x ∈ t) → (∃ t ∈ tris, y ∈ t) →
+      mass (polygonSampler polygonOuterFilter μ tris inPoly n) x =
+        mass (polygonSampler polygonOuterFilter μ tris inPoly n) y) ∧
+    (∀ z, inPoly z = false → mass (polygonSampler polygonOuterFilter μ tris inPoly n) z = 0) := by
+  rw [gen_polygon_filter]
+  simp only [polygonSampler, polygonPass, if_true]
+  constructor
+  · intro x y hx hy hxt hyt
+    rw [mass_retryLoop, mass_retryLoop, mass_filter inPoly, mass_filter inPoly, hx, hy]
+    simp only [if_true]
+    rw [polygon_uniform μ hμ tris hnd hdisj x, polygon_uniform μ hμ tris hnd hdisj y, if_pos hxt, if_pos hyt]
+  · intro z hz
+    rw [mass_retryLoop, mass_filter inPoly, hz]; simp
+
+/-- without the guard an atom of a hole that a triangle covers is returned (the defect before the repair) -/
+theorem polygon_unfiltered_leaks :
+    mass (polygonSampler false 1 [[1, 2], [3, 4]] (fun a => a ≠ 4) 3) 4 = 1 / 4 ∧
+    mass (polygonSampler true 1 [[1, 2], [3, 4]] (fun a => a ≠ 4) 3) 4 = 0 ∧
+    mass (polygonSampler true 1 [[1, 2], [3, 4]] (fun a => a ≠ 4) 3) 1 =
+      mass (polygonSampler true 1 [[1, 2], [3, 4]] (fun a => a ≠ 4) 3) 3 := by
+  decide +kernel
+
+example : mass (polygonSampler polygonOuterFilter 1 [[1, 2], [3, 4]] (fun a => a ≠ 4) 2) 1 = 1 / 4 + 1 / 4 * (1 / 4) := by
   decide +kernel
 
 /-- **Outer rejection** (the guard proposed for triangulations that overshoot the polygon, and the reason why
